@@ -723,6 +723,15 @@ pub fn c06_cases(c: &Corpus, quick: bool) -> Vec<IoRun> {
         EOp::SumOf(vec![0, 1, 2]),
         EOp::SumOf(vec![]),
         EOp::MulBigint(2, vec![u64::MAX, u64::MAX, u64::MAX, u64::MAX, 1]),
+        EOp::Msm(vec![0, 1, 2], vec![]),
+        EOp::Msm(vec![], vec![]),
+        EOp::MultiscalarMul(vec![0, 1, 2], vec![]),
+        EOp::ClearCofactor(2),
+        EOp::MulByCofactorToGroup(2),
+        EOp::AffineMulBigint(2, vec![5, 0, 0, 0, 7]),
+        EOp::AffineNeg(2),
+        EOp::AddAffine(1, 2),
+        EOp::IntoGroup(2),
     ] {
         let mut p = base.clone();
         p.push(po(op));
